@@ -17,8 +17,15 @@ def sh(cmd, cwd=None, env=None, timeout=3600):
     return p.returncode, p.stdout
 
 
+def _outdir(pid, m):
+    if m in ("b2", "b3"):
+        return "/tmp/wt/out8_%s" % pid
+    return {"n": "/tmp/wt/out2_%s", "p": "/tmp/wt/out3_%s", "q": "/tmp/wt/out4_%s", "r": "/tmp/wt/out5_%s", "u": "/tmp/wt/out6_%s", "v": "/tmp/wt/out7_%s",
+            "b": "/tmp/wt/out7_%s"}.get(m[0], "/tmp/wt/out_%s") % pid
+
+
 def verify(pid, m):
-    wt, out = "/tmp/wt/%s" % pid, {"n": "/tmp/wt/out2_%s", "p": "/tmp/wt/out3_%s", "q": "/tmp/wt/out4_%s", "r": "/tmp/wt/out5_%s", "u": "/tmp/wt/out6_%s", "v": "/tmp/wt/out7_%s", "b": "/tmp/wt/out7_%s"}.get(m[0], "/tmp/wt/out_%s") % pid
+    wt, out = "/tmp/wt/%s" % pid, _outdir(pid, m)
     env = {"PYTHONPATH": wt + "/src"}
     rc, o = sh("git status --porcelain", cwd=wt)
     assert o.strip() == "", "worktree dirty: " + o
@@ -44,7 +51,7 @@ def verify(pid, m):
 
 
 def install(pid, m, res=None):
-    out = {"n": "/tmp/wt/out2_%s", "p": "/tmp/wt/out3_%s", "q": "/tmp/wt/out4_%s", "r": "/tmp/wt/out5_%s", "u": "/tmp/wt/out6_%s", "v": "/tmp/wt/out7_%s", "b": "/tmp/wt/out7_%s"}.get(m[0], "/tmp/wt/out_%s") % pid
+    out = _outdir(pid, m)
     d = os.path.join(V, "benign" if m.startswith("b") else "seeded", "%s-%s" % (pid, m))
     os.makedirs(d, exist_ok=True)
     shutil.copy("%s/%s.diff" % (out, m), d + "/patch.diff")
